@@ -1,5 +1,5 @@
 """C06 — emu-sv operators: CPU and batched (GPU) paths agree (structural clause)."""
-from ..rules import drivers, device, observables
+from ..rules import drivers, device, observables, axes
 
 META = {
     "title": "emu-sv operators apply exactly the Hamiltonian and Lindbladian they represent",
@@ -24,3 +24,4 @@ def check(ctx):
     observables.lindbladian_structure(ctx)
     observables.hamiltonian_structure(ctx)
     drivers.phase_shortcut(ctx)
+    axes.diagonal_builders(ctx)
